@@ -243,12 +243,20 @@ func (ex *Explorer) runPath(prefix []int, ss *solverSet) (res *PathResult) {
 	res = &PathResult{}
 	defer func() {
 		r := recover()
+		i.sched.killAll()
+		if gp, ok := r.(gorPanic); ok {
+			r = gp.tp // an unrecovered panic in a spawned goroutine ends the program, too
+		}
 		switch r := r.(type) {
 		case nil:
 			p.ended = "return"
 		case pathEnd:
 			p.ended = r.reason
 			res.Detail = r.detail
+			if r.reason == "deadlock" && i.deadlockMsg != "" {
+				p.ended = "panic"
+				i.reportPanic(targetPanic{msg: "deadlock: " + i.deadlockMsg + " (" + r.detail + ")"})
+			}
 		case targetPanic:
 			p.ended = "panic"
 			res.Detail = r.String()
